@@ -174,6 +174,9 @@ func checkC04(c *Ctx) {
 	off := genOffFromLedger(c)
 	for i := 0; i < nr; i++ {
 		g := NewGen(rand.New(rand.NewSource(c.Seed*5000011 + int64(i))))
+		if i%2 == 1 {
+			g.PLib = 12 // every other program also calls the modelled library (extension functions, abs, keys)
+		}
 		for f := range off {
 			g.Off[f] = true
 		}
